@@ -400,7 +400,18 @@ impl Gen {
                 };
                 // prefer an existing (owner, spender) allowance for the *From operations
                 let mut pairs: Vec<(Id, Id, u128)> = vec![];
-                for o in USERS.iter() {
+                // the token contracts are also exercised with the hub's address as the *owner* of an
+                // allowance over tokens donated to it (no hub code path grants one; the token
+                // contract's handlers are modelled, and proved about, for every owner)
+                if self.rng.chance(1, 10) && c.token_allowance(tok, HUB, spender).map(|x| x.0).unwrap_or(0) == 0 {
+                    if c.token_balance(tok, HUB) == 0 {
+                        let h = self.holder_of(tok, c).unwrap_or(u);
+                        let hb = c.token_balance(tok, h);
+                        return tx(h, tok, Call::Tok(TokMsg::Transfer(HUB, self.amount(hb, c))));
+                    }
+                    return tx(HUB, tok, Call::Tok(TokMsg::IncAllow(spender, c.token_balance(tok, HUB).max(1) * 2, e)));
+                }
+                for o in USERS.iter().chain([HUB].iter()) {
                     for s in USERS.iter() {
                         if let Some((amt, _)) = c.token_allowance(tok, *o, *s) {
                             if amt > 0 {
@@ -482,7 +493,19 @@ impl Gen {
                 }
                 match self.rng.below(6) {
                     0 | 1 => tx(OWNER, REG, Call::Reg(RegMsg::Add(v))),
-                    2 | 3 => tx(OWNER, REG, Call::Reg(RegMsg::Remove(v))),
+                    2 | 3 => {
+                        // mostly a validator that is registered; now and then one without any hub stake
+                        // (the last registered one included: that removal must be refused)
+                        let idle: Vec<Id> = regd.iter().cloned().filter(|x| c.deleg_of(*x) == 0).collect();
+                        let w = if !idle.is_empty() && self.rng.chance(1, 3) {
+                            self.rng.pick(&idle)
+                        } else if !regd.is_empty() && self.rng.chance(2, 3) {
+                            self.rng.pick(&regd)
+                        } else {
+                            v
+                        };
+                        tx(OWNER, REG, Call::Reg(RegMsg::Remove(w)))
+                    }
                     4 => tx(u, REG, Call::Reg(RegMsg::Redelegations(v))),
                     _ => Op::Env(EnvOp::NoRedel(v, self.rng.chance(1, 2))),
                 }
